@@ -22,6 +22,7 @@ REQUIRED_COUNTERS = ["c19_npz_roundtrips", "c19_datafile_loads", "c19_datafile_r
 MIN_NONTRIVIAL = {"quick": 150, "thorough": 1000}
 WORKERS = {"quick": 14, "thorough": 16}
 BUDGET_S = {"quick": 500, "thorough": 3000}
+THOROUGH_ROUNDS = 6
 
 
 def cases(tier, seed):
